@@ -16,6 +16,7 @@ justifies "Put, CleanUp, Clear are one atomic step each / no step blocks" to the
 -/
 import LA.Proofs.ReasmConc
 import LA.Gen.LockFacts
+import LA.Proofs.StateFacts
 
 namespace LA.ReasmConc
 open LA.Reasm
@@ -255,3 +256,9 @@ example : (pending (run (init 4 hour progs) (sched.take 13)).threads).map (·.id
 end Example
 
 end LA.ReasmConc
+
+/-! ### the code keeps nothing between calls that the model does not have -/
+
+/-- Outside `init`, no function of the root package writes a package-level variable, takes the address of one or calls a
+sync/atomic method on one (regenerated list, see LA.Proofs.StateFacts): all state is in the object the model is given. -/
+theorem C11_state_is_in_the_object : LA.StateFacts.ofPkg "" = [] := by decide
